@@ -29,6 +29,7 @@ type StateMachine struct {
 	signer tmconsensus.Signer
 
 	hashScheme tmconsensus.HashScheme
+	sigScheme  tmconsensus.SignatureScheme
 
 	finalizer tsi.CommitProofFinalizer
 
@@ -98,6 +99,7 @@ func NewStateMachine(ctx context.Context, log *slog.Logger, cfg StateMachineConf
 		signer: cfg.Signer,
 
 		hashScheme: cfg.HashScheme,
+		sigScheme:  cfg.SignatureScheme,
 
 		finalizer: tsi.CommitProofFinalizer{
 			SigScheme:  cfg.SignatureScheme,
@@ -1206,18 +1208,38 @@ func (m *StateMachine) recordPrevote(
 			Height: h, Round: r,
 			BlockHash: targetHash,
 		}
-		signContent, sig, err := m.signer.Prevote(ctx, vt)
-		if err != nil {
-			glog.HRE(m.log, h, r, err).Error(
-				"Failed to sign prevote",
-				"target_hash", glog.Hex(targetHash),
-			)
+		var signContent, sig []byte
+		ra, recorded, ok := m.recordedActions(ctx, h, r)
+		if !ok {
 			return false
 		}
+		if recorded && ra.PrevoteSignature != "" {
+			// We were restarted inside this round after recording a prevote.
+			// Repeat exactly that vote; signing again, possibly for another target, would be a double sign.
+			targetHash = ra.PrevoteTarget
+			vt.BlockHash = targetHash
+			var err error
+			signContent, err = tmconsensus.PrevoteSignBytes(vt, m.sigScheme)
+			if err != nil {
+				glog.HRE(m.log, h, r, err).Error("Failed to build sign bytes for previously recorded prevote")
+				return false
+			}
+			sig = []byte(ra.PrevoteSignature)
+		} else {
+			var err error
+			signContent, sig, err = m.signer.Prevote(ctx, vt)
+			if err != nil {
+				glog.HRE(m.log, h, r, err).Error(
+					"Failed to sign prevote",
+					"target_hash", glog.Hex(targetHash),
+				)
+				return false
+			}
 
-		if err := m.aStore.SavePrevoteAction(ctx, m.signer.PubKey(), vt, sig); err != nil {
-			glog.HRE(m.log, h, r, err).Error("Failed to save prevote to action store")
-			return false
+			if err := m.aStore.SavePrevoteAction(ctx, m.signer.PubKey(), vt, sig); err != nil {
+				glog.HRE(m.log, h, r, err).Error("Failed to save prevote to action store")
+				return false
+			}
 		}
 
 		// The OutgoingActionsCh is 3-buffered so we assume this will never block.
@@ -1240,6 +1262,30 @@ func (m *StateMachine) recordPrevote(
 	}
 
 	return true
+}
+
+// recordedActions loads what this validator has already recorded for the given round.
+// Something can only be on record when we are about to vote
+// if the process was restarted inside the round.
+// The ok result is false only on an unexpected store error, which is logged.
+func (m *StateMachine) recordedActions(
+	ctx context.Context, h uint64, r uint32,
+) (ra tmstore.RoundActions, recorded, ok bool) {
+	ra, err := m.aStore.LoadActions(ctx, h, r)
+	if err != nil {
+		if errors.As(err, new(tmconsensus.RoundUnknownError)) {
+			return ra, false, true
+		}
+		glog.HRE(m.log, h, r, err).Error("Failed to load previously recorded actions")
+		return ra, false, false
+	}
+
+	if ra.PubKey == nil || !ra.PubKey.Equal(m.signer.PubKey()) {
+		// Recorded under another key; the store decides what to do with our vote.
+		return ra, false, true
+	}
+
+	return ra, true, true
 }
 
 func (m *StateMachine) handlePrecommitViewUpdate(
@@ -1301,18 +1347,38 @@ func (m *StateMachine) recordPrecommit(
 		Height: h, Round: r,
 		BlockHash: targetHash,
 	}
-	signContent, sig, err := m.signer.Precommit(ctx, vt)
-	if err != nil {
-		glog.HRE(m.log, h, r, err).Error(
-			"Failed to sign precommit content",
-			"target_hash", glog.Hex(targetHash),
-		)
+	var signContent, sig []byte
+	ra, recorded, ok := m.recordedActions(ctx, h, r)
+	if !ok {
 		return false
 	}
+	if recorded && ra.PrecommitSignature != "" {
+		// We were restarted inside this round after recording a precommit.
+		// Repeat exactly that vote; signing again, possibly for another target, would be a double sign.
+		targetHash = ra.PrecommitTarget
+		vt.BlockHash = targetHash
+		var err error
+		signContent, err = tmconsensus.PrecommitSignBytes(vt, m.sigScheme)
+		if err != nil {
+			glog.HRE(m.log, h, r, err).Error("Failed to build sign bytes for previously recorded precommit")
+			return false
+		}
+		sig = []byte(ra.PrecommitSignature)
+	} else {
+		var err error
+		signContent, sig, err = m.signer.Precommit(ctx, vt)
+		if err != nil {
+			glog.HRE(m.log, h, r, err).Error(
+				"Failed to sign precommit content",
+				"target_hash", glog.Hex(targetHash),
+			)
+			return false
+		}
 
-	if err := m.aStore.SavePrecommitAction(ctx, m.signer.PubKey(), vt, sig); err != nil {
-		glog.HRE(m.log, h, r, err).Error("Failed to save precommit to action store")
-		return false
+		if err := m.aStore.SavePrecommitAction(ctx, m.signer.PubKey(), vt, sig); err != nil {
+			glog.HRE(m.log, h, r, err).Error("Failed to save precommit to action store")
+			return false
+		}
 	}
 
 	// The OutgoingActionsCh is 3-buffered so we assume this will never block.
